@@ -56,6 +56,11 @@ def evaluate(case, ctx):
             import os
             split_regions = parse.log_regions(os.path.join(res.out, "isoquant.log"))
         models = parse.gtf(mg)
+        model_reads = {}
+        for l in parse.data_lines(mr):
+            c = l.split("\t")
+            if len(c) >= 2:
+                model_reads.setdefault(c[1], set()).add(c[0])
         tt = gtfcheck.transcript_table(models)
         ref = gtfcheck.ref_table(sc)
         annotated = bool(sc["genes"])
@@ -126,12 +131,18 @@ def evaluate(case, ctx):
                         # (detect_similar_isoforms skips them), so one intron with two distant ends gives two models;
                         # two 2-exon models with the same ends would be something else
                         sig += ":ends-more-than-50bp-apart"
+                    span = (min(other[0][0], ex[0][0]), max(other[-1][1], ex[-1][1]))
                     if sc.get("split_locus") and sum(1 for ra, rb in split_regions
-                                                     if ra <= ch[-1][1] and rb >= ch[0][0]) >= 2:
+                                                     if ra <= span[1] and rb >= span[0]) >= 2:
                         # root cause of a known finding: models are built per processing region and never compared
                         # across regions; the reads of one isoform whose introns reach over a split point can end
                         # up in two regions
                         sig += ":built-in-different-regions"
+                        # ... each read in the sub-region that keeps it: the two models never share a read.  Models
+                        # that do share reads are built from copies of one alignment, which is something else
+                        common_reads = model_reads.get(novel_chains[key], set()) & model_reads.get(tid, set())
+                        if common_reads:
+                            sig += ":from-the-same-reads"
                     ctx.violation(sig, {"transcripts": [novel_chains[key], tid], "chain": ch[:5],
                                         "exons": [tt[novel_chains[key]]["exons"], ex]}, case)
                 novel_chains.setdefault(key, tid)
@@ -160,7 +171,8 @@ def split_scenarios(draw):
     if draw(st.sampled_from([0, 1])):
         sc = S.gen_balanced_novel_locus(src, with_annotation=annotated)
     else:
-        sc = S.gen_long_gene_locus(src, with_annotation=annotated, straddle=True, x_annotated=False,
+        xv = annotated and draw(st.booleans())
+        sc = S.gen_long_gene_locus(src, with_annotation=annotated, straddle=True, x_annotated=xv, x_variant=xv,
                                    n_cross=draw(st.sampled_from([1, 2, 3, 4])))
     sc["opts"] = ["--data_type", draw(st.sampled_from(["nanopore", "pacbio_ccs"])), "--no_gzip", "--threads",
                   str(draw(st.sampled_from([1, 2]))), "--debug"]
